@@ -19,6 +19,8 @@
 (***************************************************************************)
 EXTENDS Integers, Sequences, FiniteSets
 
+BudP == INSTANCE Budget          \* property-level reference of the shared budget (C10)
+
 None == -1
 Unobs == -2
 SleeperExc == -3
@@ -88,7 +90,8 @@ MInit ==
      nretry  |-> 0,          \* `retry` events so far
      terminal|-> "-",        \* stop tag of the terminal event ("ok" for success), "-" none yet
      termk   |-> "-", termcause |-> "-", termt |-> 0,
-     emits   |-> <<>>,       \* the events the metric/log sinks received in this run
+     emits   |-> <<>>,
+     bg      |-> <<>>,       \* grant log of the shared budget: survives across runs       \* the events the metric/log sinks received in this run
      \* ---- episode level
      fk      |-> "-", fcause |-> "-", fra |-> None, ft |-> 0,
      hard    |-> {},         \* hard stop conditions that hold for the current failure
@@ -239,7 +242,11 @@ OnConsume(c, m, ev) ==
           <<c.budget # None,                         "C10:consume-without-budget">>,
           <<m.phase = "failed" /\ m.hard = {},       "C03:budget-token-spent-without-permitted-retry">>,
           <<m.consumed = "-",                        "C03:budget-consulted-twice">> >>)
-    IN  [m1 EXCEPT !.consumed = IF ev.ok THEN "ok" ELSE "denied"]
+        bc == [max |-> c.budget, W |-> c.bW]
+        r  == IF ev.ok THEN 1 ELSE 0
+    IN  [m1 EXCEPT !.consumed = IF ev.ok THEN "ok" ELSE "denied",
+                   !.viol = @ \cup (IF c.budget # None THEN BudP!GJudge(bc, m.bg, "consume", 1, ev.at, r) ELSE {}),
+                   !.bg = BudP!GNext(bc, m.bg, "consume", 1, ev.at, r)]
 
 (***************************************************************************)
 (* emitted events (metric + log sinks received the identical record)       *)
@@ -457,7 +464,7 @@ OnDeliver(c, m, ev) ==
         capStop == m.terminal \in {"MAX_ATTEMPTS_PER_CLASS", "MAX_UNKNOWN_ATTEMPTS",
                                    "MAX_ATTEMPTS_GLOBAL"}
         m2 == V(m1, capStop => Justified(c, m, m.terminal), "C01:cap-reported-without-own-counters")
-    IN  [MInit EXCEPT !.viol = m2.viol]
+    IN  [MInit EXCEPT !.viol = m2.viol, !.bg = m.bg]
 
 (***************************************************************************)
 (* events the monitors do not know: sink disparity etc.                    *)
